@@ -36,6 +36,36 @@ CLAIMED = {
  'C20': ('Hypothesis-drawn spectra with the asserted clause chosen from the computed spectrum; priors/inits observed through zero-update fits and compared with an independent construction',
          'Exploration: thousands of symmetric matrices per run (every rank, near-PSD inside/outside tolerance, indefinite, 14 decades) through components_from_metric with L^T L = M / NonPSDError / ValueError oracles; prior and init options observed on fitted models that perform no update (LSML tol=1e10, ITML with inactive bounds, MMC diagonal max_iter=0, LMNN max_iter=0, NCA/MLKR with zero L-BFGS iterations).',
          'A boundary band around the tolerance is not asserted; pca/lda compared up to row sign.', '4/C20'),
+ 'C08': ('Hypothesis differential (supervised vs base learner on helper-derived constraints, same seed) + metamorphic relation (moving unlabeled points)',
+         'Exploration: the six *_Supervised estimators with generated hyper-parameters, seeds and label vectors with -1 holes; M_sup must equal M_base (1e-10) and must not change when unlabeled points are moved.',
+         'Constraints come from the public helper, whose soundness is C07; lda basis excluded from the metamorphic clause.', '4/C08'),
+ 'C09': ('Hypothesis datasets / chunk and class layouts vs slow reference constructions (two-pass covariance + Penrose conditions, within-chunk covariance + generalised eigenvalues, O(n^2) pairwise LFDA scatter)',
+         'Exploration: Covariance, RCA, LFDA on generated layouts (rank-deficient data, -1 chunks, singleton chunks, classes smaller than k) compared with independent explicit-loop evaluations of the documented formulas.',
+         'LFDA weighted scaling asserted up to a common eigenvalue shift (DESIGN section 5).', '4/C09'),
+ 'C10': ('captured optimiser objective (rebinding scipy minimize / wrapping LMNN._loss_grad) vs explicit-loop documented objective, analytic derivative and central differences at Hypothesis-generated L',
+         'Exploration: NCA, MLKR, LMNN value and gradient at generated transformations (incl. low rank), descent, accepted-iterate monotonicity from the verbose trace, zero-iteration initialisation.',
+         'Evaluation points are sampled; finite differences only away from hinge kinks.', '4/C10'),
+ 'C11': ('per-instance KKT certificate from frame-observed dual variables on Hypothesis-generated pair sets / priors / bounds / budgets',
+         'Exploration: ITML and ITML_Supervised; stationarity of M^-1 - M0^-1, slack stationarity, dual feasibility for every budget; primal feasibility and complementary slackness when converged; prior returned when feasible.',
+         'Dual variables read from the _fit frame (sys.setprofile); ill-conditioned projections (kappa > 1e6) are inconclusive / known finding KF1.', '4/C11'),
+ 'C12': ('own evaluation of the documented LSML objective and gradient, own descent from the returned matrix, weight-scaling metamorphic relation',
+         'Exploration: LSML and LSML_Supervised on generated quadruplets, priors, weights (array, list, integer, scaled), tol, max_iter; descent from the prior, stationarity within tol on early stop, no better point found by an independent descent, weights semantics.',
+         'tol >= 1e-5; convexity of the objective assumed for the global-minimiser clause.', '4/C12'),
+ 'C13': ('differential against an own ADMM graphical-lasso solver + sub-gradient (KKT) certificate on Hypothesis-generated pairs / priors / balance / sparsity',
+         'Exploration: SDML and SDML_Supervised inside the positive-definite margin (objective gap, KKT) and beyond it (RuntimeError or finite PSD matrix only).',
+         'scikit-learn non-convergence warnings and reference non-convergence are inconclusive.', '4/C13'),
+ 'C14': ('postconditions + reference model of the documented projected-gradient scheme on Hypothesis-generated pairs / inits / budgets',
+         'Exploration: MMC and MMC_Supervised; PSD, similarity budget within 1%, first projection for max_iter=1, objective not below the first projection, full reference run when branch margins are unambiguous; diagonal variant: non-negative diagonal or ValueError.',
+         'Stated precondition decided by the harness\'s own alternating projection (cases outside it are discarded and counted).', '4/C14'),
+ 'C15': ('reference model: own dual-averaging run with the same RandomState batches, compared at the best checkpoint; captured (basis, weights)',
+         'Exploration: SCML and SCML_Supervised on generated triplets, bases (triplet_diffs, lda, array), beta, gamma, batch sizes, checkpoints, seeds; non-negative weights, M = sum w_i b_i b_i^T, low-rank rows and warning, unit-norm generated bases, weights equal to the reference at the lowest-objective checkpoint.',
+         '(basis, weights) captured by wrapping _components_from_basis_weights.', '4/C15'),
+ 'C17': ('Hypothesis stateful testing (RuleBasedStateMachine per estimator) against a fresh-fit reference model and byte-level snapshots',
+         'Exploration over call histories: fit on datasets of different dimensionality, set_params, threshold operations, queries, hand-outs, clone, pickle; after every step the estimator must agree with a fresh estimator fitted once, inputs and hyper-parameters keep their bytes/identity, handed-out objects keep their values.',
+         'Histories are sampled (30 x 12 steps per estimator quick, 200 x 25 thorough).', '4/C17'),
+ 'C19': ('Hypothesis metamorphic relations (translation on a dyadic grid, within-tuple swap, permutation, orthogonal map, scaling) with a one-ulp noise-floor control',
+         'Exploration: two fits (original / transformed data) compared through learned distances on query pairs and their images, per relation and estimator subset as listed in the property.',
+         'Tolerance classes 1e-9 / 1e-6 / 1e-5 plus noise-floor control; neighbour ties excluded.', '4/C19'),
 }
 PENDING = 'check not built yet in this revision of /verif (planned, see DESIGN.md section 4)'
 
